@@ -11,7 +11,7 @@
  * what the certificate factory put INTO each certificate from <pki>/kinds.tsv; it never looks at
  * the certificates themselves nor at the implementation's state.
  *
- * params: tp=tls|btls|utls  part=core|strict|mixed|trust|crlv|invalid|full|x1|x2|cover|nocert
+ * params: tp=tls|btls|utls  part=core|strict|mixed|trust|trustdeep|crlv|invalid|full|x1|x2|cover|nocert
  *         pki=<dir of make.py --c09>  menu=<hex io menu, default 0>
  *
  * utls: the socket under test is always the utls one; its peer is a plain tls socket (a utls server
@@ -259,15 +259,14 @@ static void build_cell(void)
 {
     int V = kind_by_name("valid");
     if (!strcmp(g_part, "core") || !strcmp(g_part, "full") || !strcmp(g_part, "strict") || !strcmp(g_part, "mixed") ||
-        !strcmp(g_part, "trust") || !strcmp(g_part, "crlv")) {
+        !strcmp(g_part, "trust") || !strcmp(g_part, "trustdeep") || !strcmp(g_part, "crlv")) {
         int full = !strcmp(g_part, "full"), core = !strcmp(g_part, "core");
         int placement = pick(4, "placement");
         int npol = (core || full) && placement <= 1 ? 9 : 8;
         int tv = 0, cv = 0, strict = 0, rev = 0, nm = 0, pmode, smode;
-        if (!strcmp(g_part, "trust"))
+        int deep = !strcmp(g_part, "trustdeep");
+        if (!strcmp(g_part, "trust") || deep)
             tv = 1 + pick(3, "trust");
-        else if (full)
-            tv = pick(4, "trust");
         int pi;
         if (!strcmp(g_part, "crlv")) {
             pi = 5 + 2 * pick(2, "policy");        /* auth=1, crl=1, time 0/1 */
@@ -283,11 +282,13 @@ static void build_cell(void)
             nm = pick(placement == 0 ? 5 : 4, "names");
         else if (!strcmp(g_part, "mixed"))
             nm = pick(2, "names");
+        else if (deep)
+            nm = pick(3, "names");
         p.nm = nm;
-        if (core || full || !strcmp(g_part, "strict") || !strcmp(g_part, "crlv"))
+        if (core || full || deep || !strcmp(g_part, "strict") || !strcmp(g_part, "crlv"))
             rev = pick(2, "reversed");
         int kind = pick(g_nkinds, "kind");
-        if (core || !strcmp(g_part, "trust") || !strcmp(g_part, "crlv"))
+        if (core || deep || !strcmp(g_part, "trust") || !strcmp(g_part, "crlv"))
             pmode = smode = pick(2, "byvalue");
         else if (!strcmp(g_part, "mixed")) {
             pmode = pick(2, "peer-byvalue");
@@ -406,7 +407,9 @@ static void build_cell(void)
         struct pol p = POL8(PI[pick(4, "policy")], 0);
         if (p.auth)
             p.nm = pick(3, "names");
-        int kind = pick(g_nkinds, "kind");
+        static const char *XK[] = { "valid", "untrusted_root", "via_inter", "expired", "revoked", "under_revoked_inter",
+                                    "wrong_name", "eku_server" };
+        int kind = kind_by_name(XK[pick(8, "kind")]);
         place(placement, &p, 0, kind, 0, 0, 0, TC_ROOT, CRL_REVOKING);
         snprintf(g_desc, sizeof g_desc, "policy in the %s map: auth=%d check_time=%d check_crl=%d names=%d; peer credential '%s'",
                  PLC[placement], p.auth, p.time, p.crl, p.nm, g_kinds[kind].name);
@@ -1014,6 +1017,13 @@ static void judge(struct side *x, struct side *peer, struct expect *ex, struct e
         if (!x->created && x == &B && !x->create_errno)
             return;      /* never got a connection to refuse */
         int err = x->created ? x->err : x->create_errno;
+        if (!x->created && err == EINVAL) {
+            /* refused as a configuration, not as a peer: stricter than documented, but closed */
+            mc_count(6, 1);
+            snprintf(sig, sizeof sig, "stricter/creation-refused/EINVAL/%s/%s", where, g_tp);
+            mc_info(sig, "a configuration the documentation allows was refused with EINVAL. Cell: %.140s", g_desc);
+            return;
+        }
         /* the errno is only owed when the refusal is this side's own: the peer was set up, had no
            reason to break off first, and the environment did not interfere */
         int peer_clean = peer->created && pex->e == E_SAT;
